@@ -95,7 +95,114 @@ def gen_geometry(seed, tier):
                 exit_delay=0, read0=read0)
 
 
+MOUSE_BASE = 700000  # … and those >= MOUSE_BASE the directed mouse family
+
+
+def gen_mouse(seed, tier):
+    """Directed: mouse gestures (press, drag with the button held, release, wheel, right button, double click) at and around
+    every edge of the list window — last column, border, margin, header and prompt rows, outside the window — over lists
+    short enough to have no scrollbar and long enough to have one."""
+    r = random.Random(seed)
+    n = r.choice([1, 3, 5, 5, 8, 30, 200])
+    lines = [('%d item' % k).encode() for k in range(n)]
+    a = ['--no-color'] if r.random() < 0.5 else []
+    layout = r.choice(['default', 'default', 'reverse', 'reverse-list'])
+    a.append('--layout=' + layout)
+    simple = r.random() < 0.5     # nothing but a border around the list: the geometry is known, gestures start on item rows
+    border = None
+    if simple or r.random() < 0.7:
+        border = r.choice(['rounded', 'rounded', 'sharp', 'horizontal', 'top', 'bottom', 'vertical'])
+        a.append('--border=' + border)
+    if simple:
+        w, h = r.choice([(80, 24), (40, 10), (30, 8), (60, 15)])
+        top = 2 if border in ('rounded', 'sharp', 'horizontal', 'top') else 1
+        bottom = h - 1 if border in ('rounded', 'sharp', 'horizontal', 'bottom') else h
+        xlast = w - 1 if border in ('rounded', 'sharp', 'vertical') else w
+        if layout == 'default':
+            rows = [bottom - 2 - k for k in range(n) if bottom - 2 - k >= top]
+        elif layout == 'reverse':
+            rows = [top + 2 + k for k in range(n) if top + 2 + k <= bottom]
+        else:
+            rows = [top + k for k in range(n) if top + k <= bottom - 2]
+        rows = rows or [top]
+
+        def ev0(b, x, y, up=False):
+            return ('\x1b[<%d;%d;%d%s' % (b, x, y, 'm' if up else 'M')).encode().hex()
+        steps = []
+        for _ in range(r.randint(3, 8)):
+            x = r.choice([xlast, xlast, xlast, xlast - 1, xlast + 1, 3])
+            y = r.choice(rows)
+            seq = ev0(0, x, y)
+            for y2 in r.choice([[h], [1], [bottom, h], [top, 1], [r.choice(rows)], [r.choice(rows), h], [h + 1]]):
+                seq += ev0(32, x, max(1, y2))
+            if r.random() < 0.7:
+                seq += ev0(0, x, 1, up=True)
+            steps.append(('keys', seq))
+            if r.random() < 0.3:
+                steps.append(('post', r.choice(['down', 'up', 'toggle', 'change-query(1)', 'clear-query'])))
+        marker = '9%07d' % (seed % 10**7)
+        return dict(seed=seed, lines=lines, args=a, w=w, h=h, steps=steps, exit=r.choice(EXITS), endless=False, marker=marker, exit_delay=0)
+    if r.random() < 0.3:
+        a.append('--margin=' + r.choice(['1', '2,3', '1,0']))
+    if r.random() < 0.25:
+        a.append('--preview=echo {}')
+        a.append('--preview-window=' + r.choice(['up', 'down', 'right', 'up,3', 'down,2']))
+    if r.random() < 0.2:
+        a.append('--style=full')
+    if r.random() < 0.3:
+        a.append('--multi')
+    if r.random() < 0.2:
+        a.append('--header=H')
+    if r.random() < 0.15:
+        a.append('--no-scrollbar')
+    if r.random() < 0.1:
+        a.append('--list-border')
+    if r.random() < 0.1:
+        a.append('--input-border')
+    w, h = r.choice([(80, 24), (80, 24), (40, 10), (30, 8), (60, 15)])
+
+    def ev(b, x, y, up=False):
+        return ('\x1b[<%d;%d;%d%s' % (b, x, y, 'm' if up else 'M')).encode().hex()
+
+    def xs():
+        return r.choice([w - 1, w - 1, w, w - 2, 1, 2, w - 3, r.randint(1, w), r.randint(1, w)])
+
+    def ys():
+        k = r.random()
+        if k < 0.35:
+            return r.randint(max(1, h - 9), h)       # the prompt edge of the default layout
+        if k < 0.7:
+            return r.randint(1, min(h, 9))           # … and of the reverse layouts
+        return r.randint(1, h)
+    steps = []
+    for _ in range(r.randint(4, 10 if tier == 'quick' else 40)):
+        x, y = xs(), ys()
+        g = r.random()
+        if g < 0.6:
+            # press, drag (button held) through one or two points, release
+            seq = ev(0, x, y)
+            for _ in range(r.choice([1, 2, 2, 3])):
+                x2 = x if r.random() < 0.6 else xs()
+                y2 = r.choice([h, 1, h - 1, 2, h + 1, ys(), ys()])
+                seq += ev(32, x2, max(1, y2))
+            if r.random() < 0.8:
+                seq += ev(0, x2, max(1, y2), up=True)
+            steps.append(('keys', seq))
+        elif g < 0.75:
+            steps.append(('keys', ev(0, x, y) + ev(0, x, y, up=True) + (ev(0, x, y) + ev(0, x, y, up=True) if r.random() < 0.5 else '')))
+        elif g < 0.85:
+            steps.append(('keys', ev(r.choice([64, 65, 68, 69]), x, y) * r.choice([1, 3])))
+        elif g < 0.92:
+            steps.append(('keys', ev(2, x, y) + ev(2, x, y, up=True)))
+        else:
+            steps.append(('post', r.choice(['toggle-preview', 'change-query(1)', 'clear-query', 'last', 'first', 'toggle-input'])))
+    marker = '9%07d' % (seed % 10**7)
+    return dict(seed=seed, lines=lines, args=a, w=w, h=h, steps=steps, exit=r.choice(EXITS), endless=False, marker=marker, exit_delay=0)
+
+
 def gen_scenario(seed, tier):
+    if seed % 1000003 >= MOUSE_BASE:
+        return gen_mouse(seed, tier)
     if seed % 1000003 >= GEOM_BASE:
         return gen_geometry(seed, tier)
     r = random.Random(seed)
@@ -343,7 +450,8 @@ def describe(sc):
 def drv_robust(tier, seed, ctx):
     from vcheck import evaluate
     n = 60 if tier == 'quick' else 1200
-    seeds = [seed * 1000003 + k for k in range(n)] + [seed * 1000003 + GEOM_BASE + k for k in range(n // 3)]
+    seeds = ([seed * 1000003 + k for k in range(n)] + [seed * 1000003 + GEOM_BASE + k for k in range(n // 3)] +
+             [seed * 1000003 + MOUSE_BASE + k for k in range(max(10, n // 3))])
     scs = [gen_scenario(x, tier) for x in seeds]
     notes = []
 
